@@ -167,7 +167,6 @@ pub fn build_sysv(names: &[Vec<u8>], nbucket: u32, little: bool, r: &mut Rng) ->
     t
 }
 
-const COLLIDE: [(&[u8], &[u8]); 4] = [(b"aB", b"b!"), (b"aa", b"bQ"), (b"a", b"b"), (b"xyzzy1", b"xyzzy2")];
 
 pub fn hash(r: &mut Rng, n: u64, x: &mut Exec, sink: &mut Sink, which: &str) {
     // the exported hash functions on random names
@@ -181,16 +180,29 @@ pub fn hash(r: &mut Rng, n: u64, x: &mut Exec, sink: &mut Sink, which: &str) {
         let little = is_little(es);
         let nsyms = match r.below(5) { 0 => r.range(1, 3), 1 => r.range(20, 60), _ => r.range(2, 12) } as usize;
         let mut names: Vec<Vec<u8>> = vec![vec![]];
-        let pair = *r.pick(&COLLIDE);
-        let use_pair = r.chance(1, 2);
+        // a pair of names with the same full hash (djb2: "aB"/"b!", elf_hash: "aa"/"bQ"), optionally embedded
+        // in a common prefix/suffix (the collision is preserved), or names whose hashes differ in bit 0 only
+        let base: (&[u8], &[u8]) = match r.below(4) {
+            0 => (b"a", b"b"),
+            _ => if which == "gnu" { (b"aB", b"b!") } else { (b"aa", b"bQ") },
+        };
+        let pre = if r.chance(1, 2) { gen_name(r) } else { vec![] };
+        let post: Vec<u8> = if r.chance(1, 3) { (0..r.below(3)).map(|_| *r.pick(b"xyz_")).collect() } else { vec![] };
+        let mk = |m: &[u8]| { let mut v = pre.clone(); v.extend_from_slice(m); v.extend(&post); v };
+        let pair = (mk(base.0), mk(base.1));
+        let use_pair = r.chance(2, 3);
+        let both_present = use_pair && r.chance(1, 2);
         while names.len() < nsyms {
-            let nm = if use_pair && names.len() == 1 { pair.0.to_vec() } else if r.chance(1, 10) && names.len() > 1 { names[r.range(1, names.len() as u64 - 1) as usize].clone() } else { gen_name(r) };
+            let nm = if use_pair && names.len() == 1 { pair.0.clone() }
+                     else if both_present && names.len() == 2 { pair.1.clone() }
+                     else if r.chance(1, 10) && names.len() > 1 { names[r.range(1, names.len() as u64 - 1) as usize].clone() } else { gen_name(r) };
             names.push(nm);
         }
+        if both_present && names.len() > 2 && r.chance(1, 2) { names.swap(1, 2); }
         let mut absent: Vec<Vec<u8>> = Vec::new();
         let (table, first);
         if which == "gnu" {
-            let symoffset = r.range(1, (nsyms as u64).min(3)) as usize;
+            let symoffset = r.range(1, (nsyms as u64).min(4)) as usize;
             let nbucket = r.range(1, (nsyms as u64).max(2)) as u32;
             let mx = if r.chance(1, 4) { 7 } else { 3 };
             let nbloom = 1u32 << r.below(mx);
@@ -204,18 +216,42 @@ pub fn hash(r: &mut Rng, n: u64, x: &mut Exec, sink: &mut Sink, which: &str) {
         }
         let (symtab, strtab, _) = build_symtab(&names, class, little, r);
         // unhashed (gnu) names before `first` are absent from the table's point of view unless repeated later
-        if use_pair { absent.push(pair.1.to_vec()); }
+        if use_pair && !both_present { absent.push(pair.1.clone()); }
         for _ in 0..3 { absent.push(gen_name(r)); }
         absent.push(vec![]);
         let mut wf = true;
         let mut tb = table.clone();
-        if r.chance(1, 4) {
+        if r.chance(1, 3) {
             wf = false;
-            match r.below(4) {
+            let ws = if class == 32 { 4 } else { 8 };
+            let rd32 = |b: &[u8], o: usize| -> u32 { let mut a = [0u8; 4]; a.copy_from_slice(&b[o..o + 4]); if little { u32::from_le_bytes(a) } else { u32::from_be_bytes(a) } };
+            match r.below(7) {
                 0 => { let i = r.below(tb.len() as u64) as usize; tb[i] = r.next() as u8; }
                 1 => { let f = r.below(if which == "gnu" { 4 } else { 2 }) as usize * 4; let v = r.edge64(); let mut w = Vec::new(); put(&mut w, v, 4, little); tb[f..f + 4].copy_from_slice(&w); }
                 2 => { let k = r.below(tb.len() as u64 + 1) as usize; tb.truncate(k); }
-                _ => { let k = r.range(1, 8) as usize; for _ in 0..k { let i = r.below(tb.len() as u64) as usize; tb[i] = *r.pick(&[0u8, 1, 2, 0xff]); } }
+                3 => { let k = r.range(1, 8) as usize; for _ in 0..k { let i = r.below(tb.len() as u64) as usize; tb[i] = *r.pick(&[0u8, 1, 2, 0xff]); } }
+                // field-aware: every bloom bit set (so lookups reach the buckets) and bucket / chain cells set
+                // to boundary values: below / at the first hashed symbol, at / past the symbol count, huge
+                _ => {
+                    let (cells_off, ncell) = if which == "gnu" {
+                        let nb = rd32(&tb, 0) as usize; let nbl = rd32(&tb, 8) as usize;
+                        for i in 16..(16 + ws * nbl).min(tb.len()) { tb[i] = 0xff; }
+                        (16 + ws * nbl, (tb.len().saturating_sub(16 + ws * nbl)) / 4 + 0 * nb)
+                    } else { (8, (tb.len() - 8) / 4) };
+                    let nb = rd32(&tb, 0) as usize;
+                    for _ in 0..r.range(1, 4) {
+                        if ncell == 0 || nb == 0 { break; }
+                        // the bucket a present name hashes to (so that the lookup walks into the edited cell), or any cell
+                        let c = if r.chance(2, 3) && names.len() > 1 {
+                            let nm = &names[r.range(1, names.len() as u64 - 1) as usize];
+                            let h = if which == "gnu" { ref_gnu_hash(nm) } else { ref_sysv_hash(nm) };
+                            cells_off + 4 * (h as usize % nb)
+                        } else { cells_off + 4 * r.below(ncell as u64) as usize };
+                        let v: u64 = match r.below(8) { 0 => 0, 1 => 1, 2 => first as u64, 3 => (first as u64).saturating_sub(1), 4 => nsyms as u64, 5 => nsyms as u64 - 1, 6 => 0xffff_ffff, _ => r.below(nsyms as u64 + 2) };
+                        let mut w = Vec::new(); put(&mut w, v, 4, little);
+                        if c + 4 <= tb.len() { tb[c..c + 4].copy_from_slice(&w); }
+                    }
+                }
             }
         }
         sink.run(x, &json!({"op":"buf","slot":"h","bytes":bytes_val(&tb)}));
